@@ -619,6 +619,10 @@ class Loader:
                     _LOGGER.info('Restore identity %s => %s',
                                  appname, identity)
                     app.force_set_identity(identity)
+                if app.placement_expiry != expires:
+                    # App lease was re-evaluated, record new expiration.
+                    data['expires'] = app.placement_expiry
+                    self.backend.put(appnode, data)
 
         return placed_apps, restored_apps
 
